@@ -10,12 +10,13 @@ from ..oracles import textview as TV
 
 PROP_ID = "C04"
 LEVEL = "exploration"
-RULE = "exhaustive strings over an 11-symbol alphabet (escape) + Hypothesis strings + Hypothesis tag-event documents against a reference tag-stack interpreter"
+RULE = "exhaustive strings over an 11-symbol alphabet (escape) + Hypothesis strings + Hypothesis tag-event documents against a reference tag-stack interpreter (emoji replacement off, and on with emoji codes among the text)"
 ASSUMPTIONS = [
     "escape round trip is judged with emoji=False (and emoji=True only for ':'-free strings): escape() is documented to neutralise markup, not emoji codes - DESIGN 7.3",
     "embedded form: prefix does not end in a backslash; s does not end in a backslash and every '[' in s is followed by a later ']' in s (the statement's side condition) - DESIGN 7.4",
     "characters Text strips (\\x08 \\x0b \\x0c \\r) are not in the alphabets - DESIGN 7.2",
     "tag names that are not styles (e.g. 'foo') style nothing",
+    "emoji codes are replaced stretch by stretch (text between tags); documents where a pair of colons straddling a tag would make whole-text replacement differ are judged with emoji=False only - DESIGN 7.3",
 ]
 
 ALPHA = ["[", "]", "\\", "/", "=", "#", "a", "1", " ", "\n", ":"]
@@ -576,4 +577,246 @@ class EscapeGenerated(Part):
             ctx.cls("embedded")
 
 
-PARTS = [EscapeExhaustive(), EscapeGenerated(), TagDocs(), BracketAnyChar()]
+# ------------------------------------------------------------------------------------------------ documents with emoji codes
+# Emoji replacement (on by default in render / Text.from_markup / Console) changes the LENGTH of the text between the tags;
+# the tags must still style exactly the characters they enclose.
+EMOJI_VALID = [":smiley:", ":a:", ":b:", ":warning:", ":thumbs_up:", ":+1:", ":e-mail:", ":england:", ":bald_man:", ":SMILEY:", ":Thumbs_Up:",
+               ":mrs._claus:", ":on!_arrow:", ":link:", ":red_circle:", ":x:", ":heart:"]
+EMOJI_NOT = [":nope:", ":bold:", ":red:", ":smi ley:", "::", ":", "12:30", "a: b", "http://x", ":smiley", "smiley:", ": smiley :", ":/:", ":#a:"]
+EMOJI_WORDS = ["hi", " ", " there ", "x", "\n", "漢字", "😃", "[1]", "]", " almost full", "a=b", "1,2", "see log"]
+EMOJI_LIT = ["[red]", "[/]", "[/bold]", "[link=z]", "[b]", "[#fff]"]   # tag-shaped literal text, written with a backslash before the bracket
+
+
+def emoji_ref(s):
+    """Reference for emoji codes in one piece of text: scanning left to right, ':name:' (no white space in name, the first following colon ends it)
+    is replaced when name (lower-cased) is in the emoji table; a candidate that is not in the table stays as it is and is passed over as a whole."""
+    from rich._emoji_codes import EMOJI
+
+    out = []
+    i = 0
+    n = len(s)
+    while i < n:
+        if s[i] == ":":
+            j = s.find(":", i + 1)
+            if j != -1 and not any(c.isspace() for c in s[i + 1:j]):
+                rep = EMOJI.get(s[i + 1:j].lower())
+                out.append(s[i:j + 1] if rep is None else rep)
+                i = j + 1
+                continue
+        out.append(s[i])
+        i += 1
+    return "".join(out)
+
+
+def emoji_piece():
+    from rich._emoji_codes import EMOJI
+
+    anycode = st.sampled_from(sorted(EMOJI)).map(lambda name: ":%s:" % name)
+    word = st.text(st.sampled_from(list("abxyz01 ,.-_()\n:") + ["漢", "😀"]), min_size=1, max_size=6)
+    return st.one_of(st.sampled_from(EMOJI_VALID), st.sampled_from(EMOJI_VALID), anycode, st.sampled_from(EMOJI_NOT),
+                     st.sampled_from(EMOJI_WORDS), st.sampled_from(EMOJI_WORDS), st.sampled_from(EMOJI_WORDS), word)
+
+
+def emoji_docs():
+    """Mostly well-nested tag documents whose text pieces are words, emoji codes (valid or not) and escaped tag-shaped literals."""
+
+    @st.composite
+    def doc(draw):
+        n = draw(st.integers(1, 12))
+        evs = []
+        stack = []
+        for _ in range(n):
+            k = draw(st.integers(0, 11))
+            if k <= 2:
+                t = draw(st.sampled_from(TAG_NAMES))
+                evs.append(["open", t])
+                stack.append(t)
+            elif k <= 4 and stack:
+                i = draw(st.integers(0, len(stack) - 1))
+                t = stack[i if draw(st.booleans()) else -1]
+                key = TAGS[t][0]
+                for j in range(len(stack) - 1, -1, -1):
+                    if TAGS[stack[j]][0] == key:
+                        del stack[j]
+                        break
+                evs.append(["close", t, draw(st.integers(0, 3))])
+            elif k == 5 and stack:
+                stack.pop()
+                evs.append(["closeany"])
+            elif k == 6:
+                evs.append(["lit", draw(st.sampled_from(EMOJI_LIT))])
+            elif k == 7 and draw(st.integers(0, 5)) == 0:
+                # now and then a close that may have nothing to close (MarkupError must not depend on emoji replacement either)
+                evs.append(["close", draw(st.sampled_from(TAG_NAMES)), 0] if draw(st.booleans()) else ["closeany"])
+                return evs + [["text", draw(emoji_piece())]]
+            else:
+                evs.append(["text", draw(emoji_piece())])
+        return evs
+
+    return doc()
+
+
+def interpret_emoji(events):
+    """Reference interpreter for documents with emoji codes.  Returns ('ok', markup, chunks) or ('error', markup);
+    chunks = [[raw text, style spec]]: one per maximal stretch of text between tags, escaped tag-shaped literals being stretches of their own."""
+    markup = ""
+    chunks = []
+    stack = []
+    error = False
+    fresh = True
+    for ev in events:
+        kind = ev[0]
+        if kind == "text":
+            markup += ev[1]
+            if not error:
+                if fresh:
+                    chunks.append([ev[1], GS.merge(*[spec for _, spec in stack])])
+                    fresh = False
+                else:
+                    chunks[-1][0] += ev[1]
+            continue
+        fresh = True
+        if kind == "lit":
+            markup += "\\" + ev[1]
+            if not error:
+                chunks.append([ev[1], GS.merge(*[spec for _, spec in stack])])
+        elif kind == "open":
+            markup += "[" + ev[1] + "]"
+            if not error:
+                key, _, spec = TAGS[ev[1]]
+                stack.append((key, spec))
+        elif kind == "close":
+            key, spellings, _ = TAGS[ev[1]]
+            markup += "[/" + spellings[ev[2] % len(spellings)] + "]"
+            if not error:
+                for i in range(len(stack) - 1, -1, -1):
+                    if stack[i][0] == key:
+                        del stack[i]
+                        break
+                else:
+                    error = True
+        else:
+            markup += "[/]"
+            if not error:
+                if stack:
+                    stack.pop()
+                else:
+                    error = True
+    if error:
+        return ("error", markup)
+    return ("ok", markup, chunks)
+
+
+class EmojiDocs(Part):
+    name = "emoji-documents"
+    rule = ("tag documents (open / close by any spelling / close-any over the 15 tags, mostly well nested, now and then a close with nothing to close) whose text "
+            "pieces are words, VALID emoji codes (17 fixed ones incl. upper case, punctuation in the name, multi-code-point replacements, + any name of the "
+            "emoji table), look-alikes that are not codes (':nope:', '12:30', 'a: b', '::', ':smi ley:'), non-tag brackets and escaped tag-shaped literals; "
+            "rendered with emoji replacement ON - the default of markup.render / Text.from_markup / Console.render_str, and spelled out - optionally under a "
+            "base style, then with emoji=False, then ON again, and through Console(emoji=c).render_str(emoji=p) for generated c, p. Reference: the tag-stack "
+            "interpreter gives every stretch of text between tags its open tags; with replacement on, the text is each stretch with its codes replaced "
+            "(own left-to-right scanner over the emoji table) and every resulting character carries exactly the tags of its stretch; with replacement off "
+            "the stretches are verbatim with the same tags; MarkupError exactly when a close has nothing to close, with or without replacement. Documents in "
+            "which replacing codes over the whole text would differ from replacing them stretch by stretch (a ':' pair straddling a tag - the statement is "
+            "silent) are only checked with emoji=False. Non-trivial = with replacement on some code is replaced and a later non-empty stretch has a "
+            "different set of open-tag styles (a tag boundary with text after it follows the code)")
+    budget = {"quick": (8, 500), "thorough": (16, 20000)}
+
+    def strategy(self, tier):
+        base = st.one_of(st.none(), st.none(), st.sampled_from(GS.PALETTE))
+        switch = st.one_of(st.none(), st.tuples(st.booleans(), st.sampled_from([None, True, False])).map(list))
+        return st.builds(lambda evs, b, sw: {"events": evs, "base": b, "switch": sw}, emoji_docs(), base, switch)
+
+    def check(self, spec, ctx):
+        import io
+        from rich.markup import render
+        from rich.errors import MarkupError
+        from rich.text import Text
+        from rich.console import Console
+
+        evs = spec["events"]
+        res = interpret_emoji(evs)
+        markup = res[1]
+
+        def call(fn, *a, **kw):
+            try:
+                return fn(*a, **kw), None
+            except MarkupError as e:
+                return None, e
+            except Exception as e:  # noqa
+                raise SutError(e)
+
+        hows = [("render(m)", lambda: render(markup), True), ("render(m, emoji=True)", lambda: render(markup, emoji=True), True),
+                ("Text.from_markup(m)", lambda: Text.from_markup(markup), True), ("Text.from_markup(m, emoji=True)", lambda: Text.from_markup(markup, emoji=True), True),
+                ("render(m, emoji=False)", lambda: render(markup, emoji=False), False), ("render(m) again", lambda: render(markup), True)]
+        if res[0] == "error":
+            ctx.cls("error-doc")
+            for label, fn, _ in hows:
+                t, raised = call(fn)
+                if raised is None:
+                    ctx.violation("markup-error", "C04/emoji/error-missing", "%s with m = %r did not raise MarkupError; result %r %r" % (label, markup, t.plain, t.spans))
+                    return
+            return
+        chunks = res[2]
+        raw = [c[0] for c in chunks]
+        rep = [emoji_ref(r) for r in raw]
+        views = [GS.spec_view(c[1]) for c in chunks]
+        want_off = [(ch, v) for r, v in zip(raw, views) for ch in r]
+        want_on = [(ch, v) for r, v in zip(rep, views) for ch in r]
+        straddle = emoji_ref("".join(raw)) != "".join(rep)
+        if straddle:
+            ctx.cls("code-straddles-a-tag")
+
+        def compare(label, t, want, sig):
+            wp = "".join(ch for ch, _ in want)
+            if t.plain != wp:
+                ctx.violation("plain", "C04/emoji/plain" + sig, "%s with m = %r gives text %r, expected %r" % (label, markup, t.plain, wp))
+                return False
+            got = TV.char_styles(t)
+            for i, ((ch, sv), (_, wv)) in enumerate(zip(got, want)):
+                if sv != wv:
+                    ctx.violation("styling", "C04/emoji/style" + sig, "%s with m = %r gives %r: character %d %r has %r, but the tags open there give %r" % (label, markup, t.plain, i, ch, sv, wv))
+                    return False
+            if len(got) != len(want):
+                ctx.violation("plain", "C04/emoji/plain" + sig, "%s with m = %r renders %d characters, expected %d" % (label, markup, len(got), len(want)))
+                return False
+            return True
+
+        for label, fn, on in hows:
+            t, raised = call(fn)
+            if raised is not None:
+                ctx.violation("markup-error", "C04/emoji/error-spurious", "%s with m = %r raised %r but every closing tag has something to close" % (label, markup, raised))
+                return
+            if on and straddle:
+                continue
+            if not compare(label, t, want_on if on else want_off, "" if on else "-off"):
+                return
+        bspec = spec.get("base")
+        if bspec is not None and not straddle:
+            tb = sut(render, markup, style=GS.build_style(bspec))
+            wb = [(ch, GS.spec_view(GS.merge(bspec, c[1]))) for r, c in zip(rep, chunks) for ch in r]
+            if not compare("render(m, style=%r)" % (bspec,), tb, wb, "-base"):
+                return
+            ctx.cls("base-style")
+        sw = spec.get("switch")
+        if sw is not None:
+            ce, pe = sw
+            enabled = ce if pe is None else pe
+            if not (enabled and straddle):
+                con = sut(Console, file=io.StringIO(), emoji=ce, highlight=False, color_system=None, width=400, _environ={})
+                kw = {} if pe is None else {"emoji": pe}
+                t3 = sut(con.render_str, markup, **kw)
+                if not compare("Console(emoji=%r).render_str(m%s)" % (ce, "" if pe is None else ", emoji=%r" % pe), t3, want_on if enabled else want_off, "-console"):
+                    return
+                ctx.cls("console-emoji-%s-%s" % (ce, pe))
+        if straddle:
+            return
+        first = next((i for i, (r, p) in enumerate(zip(raw, rep)) if r != p), None)
+        if first is not None:
+            ctx.cls("code-replaced")
+            if any(rep[j] and views[j] != views[first] for j in range(first + 1, len(chunks))):
+                ctx.nontrivial = True
+                ctx.cls("tag-boundary-after-code")
+
+
+PARTS = [EscapeExhaustive(), EscapeGenerated(), TagDocs(), BracketAnyChar(), EmojiDocs()]
